@@ -4,11 +4,21 @@
    same_meaning_same_report - two histories of VCD text changes and / or pre-packed raw changes (what the GHW reader
    delivers) whose recorded values mean the same symbols at the same time indices are reported identically;
    vcd_fst_same_report_rs - the same for real and string variables between the wavemem store and the FST writer.
-   NOT proved: that the GHW section reader / vector buffer delivers the packed form of what the file encodes (ve_set_spec
-   and ve_get_spec, Properties/C11.v, are the per-update facts), the hierarchy
-   and the time tables of whole files; those are decided by the three-format file generators (MANIFEST level_note). *)
+   vcd_fst_same_calls (Proofs/TreeAgree.v) - the tree clause for VCD and FST: one list of declarations (scopes with their
+   kind, variables with kind, width, signal and reference text `name {[i]} [msb:lsb]`), declared by VCD header commands
+   (any keyword of the kind, any size text and identifier code denoting width and signal) and by FST hierarchy entries (any
+   type code converted to the kind and stored the same way: enc_classes_agree - every code but RealParameter), makes the
+   two front ends call the hierarchy builder identically up to component and direction - same names, array scopes,
+   nesting, order, kinds, widths, bit ranges, signals; vcd_fst_same_tree: hence the two hierarchies are equal up to
+   component and direction (hier_run_erase, Proofs/EraseProofs.v: the builder never looks at either, it only stores them).  It composes C09's handle_decls_direct (header text -> calls) and
+   C10's fst_design_calls (entries -> calls).
+   NOT proved: the GHW hierarchy (its section reader is not modelled) and that the GHW section reader / vector buffer
+   delivers the packed form of what the file encodes (time_step_spec, ve_set_spec and ve_get_spec, Properties/C11.v, are
+   the per-step facts), the time tables of whole files; those are decided by the three-format file generators (MANIFEST
+   level_note). *)
 From WV Require Import Model.Base Model.Bits Model.WaveMem Model.FstLoad Spec.TimeSpec Spec.StoreSpec
-  Proofs.StoreProofs Proofs.EncoderProofs Proofs.FstProofs Proofs.CrossProofs Proofs.RealStringEnc Proofs.FstRealString.
+  Proofs.StoreProofs Proofs.EncoderProofs Proofs.FstProofs Proofs.CrossProofs Proofs.RealStringEnc Proofs.FstRealString
+  Generated.Consts Model.Hierarchy Model.VcdBody Model.VcdHeader Model.FstHier Proofs.CmdProofs Proofs.FstHierProofs Proofs.EraseProofs Proofs.TreeAgree.
 Open Scope N_scope.
 
 Check vcd_fst_same_report :
@@ -66,6 +76,57 @@ Check vcd_fst_same_report_rs :
   exists sig, load_signal lz_decompress blocks id (rs_tpe str) = Ok sig /\
               observe_signal sig = observe_signal (sw_finish sw).
 
+(* the tree clause, VCD and FST *)
+Check vcd_fst_same_calls :
+  forall cs ds fs st st' calls,
+  Forall2 vcd_renders cs ds -> Forall2 fst_renders cs fs ->
+  design_calls st fs = Some (st', calls) ->
+  Forall2 same_op (direct_ops ds) (concat (map hier_op_of calls)).
+Check vcd_fst_same_tree :
+  forall cs ds fs st st' calls b_vcd b_fst,
+  Forall2 vcd_renders cs ds -> Forall2 fst_renders cs fs ->
+  design_calls st fs = Some (st', calls) ->
+  hier_run hb_new (direct_ops ds) = Ok b_vcd ->
+  hier_run hb_new (concat (map hier_op_of calls)) = Ok b_fst ->
+  erase_b b_vcd = erase_b b_fst.
+Check hier_run_erase : forall ops b, hier_run (erase_b b) (map erase_op ops) = omap erase_b (hier_run b ops).
+Check (eq_refl : erase_b = fun b =>
+  mk_builder (map erase_var (hb_vars b)) (map erase_scope (hb_scopes b)) (hb_first b) (hb_stack b) (hb_handles b)).
+Check (eq_refl : erase_scope = fun s =>
+  mk_scope (sc_name s) None (sc_tpe s) (sc_decl s) (sc_child s) (sc_parent s) (sc_next s)).
+Check (eq_refl : erase_var = fun v =>
+  mk_var (v_name v) (v_tpe v) 0 (v_enc v) (v_index v) (v_signal v) (v_type_name v) (v_parent v) (v_next v)).
+Check enc_classes_agree :
+  forall t raw w, t < 256 -> t <> 4 -> n_get fst_var_tab t = Some raw -> var_enc t w = vcd_enc raw w.
+Check same_calls_example.
+Check (eq_refl : vcd_renders = fun c d =>
+  match c, d with
+  | CScope k nm, CmdProofs.DScope kw nm' => nm' = nm /\ lookup_bytes kw scope_kw = Some k
+  | CUp, CmdProofs.DUp => True
+  | CVar vk w sig ref, CmdProofs.DVar tpe size id r0 rest =>
+      r0 :: rest = ref /\ lookup_bytes tpe var_kw = Some vk /\ parse_uint size u32_max = Some w /\ sref_direct id = sig
+  | _, _ => False
+  end).
+Check (eq_refl : fst_renders = fun c f =>
+  match c, f with
+  | CScope k nm, FstHierProofs.DScope t nm' comp stems => nm' = nm /\ stems = [] /\ n_get fst_scope_tab t = Some k
+  | CUp, FstHierProofs.DUp => True
+  | CVar vk w sig ref, FstHierProofs.DVar t dir nm len h attrs =>
+      nm = ref /\ len = w /\ h = sig /\ attrs = [] /\ n_get fst_var_tab t = Some vk /\ var_enc t w = vcd_enc vk w
+  | _, _ => False
+  end).
+Check (eq_refl : same_op = fun a b =>
+  match a, b with
+  | HScope n _ t d f, HScope n' _ t' d' f' => n = n' /\ t = t' /\ d = d' /\ f = f'
+  | HVar n t _ e i s tn, HVar n' t' _ e' i' s' tn' => n = n' /\ t = t' /\ e = e' /\ i = i' /\ s = s' /\ tn = tn'
+  | HPop, HPop => True
+  | _, _ => False
+  end).
+
+Print Assumptions vcd_fst_same_calls.
+Print Assumptions vcd_fst_same_tree.
+Print Assumptions hier_run_erase.
+Print Assumptions enc_classes_agree.
 Print Assumptions vcd_fst_same_report.
 Print Assumptions vcd_fst_same_report_rs.
 Print Assumptions same_meaning_same_report.
